@@ -829,7 +829,7 @@ thread_local! {
     static DEV: RefCell<Option<SimDevice>> = RefCell::new(None);
 }
 
-fn fs_options(cfg: &Cfg, clock: &Clock) -> FsOptions<Clock, Oem> {
+pub fn fs_options(cfg: &Cfg, clock: &Clock) -> FsOptions<Clock, Oem> {
     FsOptions::new()
         .time_provider(clock.clone())
         .oem_cp_converter(cfg.oem)
